@@ -97,9 +97,14 @@ class P:
         k, v, _ = self.next()
         if k != "id":
             raise SyntaxError(f"type expected, got {v}")
+        while self.opt("::"):
+            v = self.next()[1]
         if self.opt("<"):
-            a = self.ty(); self.eat(">")
-            return (v, a)
+            args = [self.ty()]
+            while self.opt(","):
+                args.append(self.ty())
+            self.eat(">")
+            return (v, *args)
         return v
 
     # ---- patterns
@@ -382,9 +387,15 @@ def lean_ty(t):
         return "Mode"
     if t == "Decimal":
         return "Model.Dec"
+    if isinstance(t, tuple) and t[0] == "Result":
+        return f"(Except Rt.DecimalError {lean_ty(t[1])})"
+    if isinstance(t, tuple) and t[0] == "Sum":
+        return f"(Sum {lean_ty(t[1])} {lean_ty(t[2])})"
     raise Unsupported(f"type {t}")
 
 
+ERR_NAMES = {"MaxNFracDigitsExceeded": "maxNFracDigitsExceeded", "InternalOverflow": "internalOverflow",
+             "InfiniteValue": "infiniteValue", "NotANumber": "notANumber", "DivisionByZero": "divisionByZero"}
 STRUCT_FIELDS = {"coeff": ("i128", "coeff"), "n_frac_digits": ("u8", "nfrac")}
 MODE_NAMES = {"Round05Up": ".r05up", "RoundCeiling": ".ceil", "RoundDown": ".down", "RoundFloor": ".floor",
               "RoundHalfDown": ".hdown", "RoundHalfEven": ".heven", "RoundHalfUp": ".hup", "RoundUp": ".up"}
@@ -471,6 +482,8 @@ class Emit:
                 return "RoundingMode"
             if n == "Some":
                 return ("Option", self.type_of(e[2][0]))
+            if n in ("Ok", "Err"):
+                return hint
             if n in self.sigs:
                 return self.sigs[n][1]
             if n in EXTERNAL:
@@ -780,6 +793,14 @@ class Emit:
         if n == "Some":
             ls, x = self.ex(args[0], hint[1] if isinstance(hint, tuple) else None)
             return ls, f"(some {x})"
+        if n == "Ok":
+            ls, x = self.ex(args[0], hint[1] if isinstance(hint, tuple) and hint[0] == "Result" else None)
+            return ls, f"(Except.ok {x})"
+        if n == "Err":
+            a = args[0]
+            if a[0] == "path" and a[1][-1] in ERR_NAMES:
+                return [], f"(Except.error Rt.DecimalError.{ERR_NAMES[a[1][-1]]})"
+            raise Unsupported("Err of a computed value")
         if n not in self.sigs and n not in EXTERNAL:
             raise Unsupported(f"call {n}")
         ptys = (self.sigs.get(n) or EXTERNAL[n])[0]
@@ -850,13 +871,16 @@ class Emit:
                 raise Unsupported("while loop without loop-carried variables")
             fv = [v for v in self.free_vars(c, body) if v not in state]
             self.loop_count = getattr(self, "loop_count", 0) + 1
-            lname = f"{self.fname}.loop{self.loop_count}"
+            lname = f"{self.fname}_loop{self.loop_count}"
             fuel = LOOP_FUEL.get((self.fname, self.loop_count), 64)
             st_ty = ("tuple", [self.env[v] for v in state]) if len(state) > 1 else self.env[state[0]]
             tup = "(" + ", ".join(state) + ")" if len(state) > 1 else state[0]
             saved_ret, saved_tm, saved_env = self.ret, self.needs_tm, dict(self.env)
-            self.ret, self.needs_tm = st_ty, False
+            self.needs_tm = False
             saved_loop, self.in_loop = getattr(self, "in_loop", False), True
+            if saved_loop:
+                raise Unsupported("nested loops")
+            self.loop_returns = False
             self.cur_ind = 2
             lc, xc = self.cond(c)
             args = " ".join(fv)
@@ -866,19 +890,28 @@ class Emit:
             btxt = self.stmts_term(list(body[1]), None, 3, rec)
             if self.needs_tm:
                 raise Unsupported("loop body consults the rounding mode")
-            self.ret, self.needs_tm, self.env = saved_ret, saved_tm, saved_env
+            self.needs_tm, self.env = saved_tm, saved_env
             self.in_loop = saved_loop
             ps = " ".join(f"({v} : {lean_ty(self.env[v])})" for v in fv)
-            sig = " → ".join(["Nat"] + [lean_ty(self.env[v]) for v in state] + [f"Outcome {lean_ty(st_ty)}"])
-            aux = [f"/-- loop {self.loop_count} of `fn {self.fname}`: fuel-bounded recursion, state = ({', '.join(state)}) -/",
+            fn_ret = self.decl_ret if hasattr(self, "decl_ret") else self.ret
+            res_ty = ("Sum", fn_ret, st_ty) if self.loop_returns else st_ty
+            fin = f"Sum.inr ({tup})" if self.loop_returns else tup
+            sig = " → ".join(["Nat"] + [lean_ty(self.env[v]) for v in state] + [f"Outcome {lean_ty(res_ty)}"])
+            aux = [f"/-- loop {self.loop_count} of `fn {self.fname}`: fuel-bounded recursion, state = ({', '.join(state)})" +
+                   ("; `Sum.inl r` = the function returned `r` from inside the loop" if self.loop_returns else "") + " -/",
                    f"def {lname} (prof : Profile) {ps} : {sig}",
                    "  | 0, " + ", ".join("_" for _ in state) + " => Outcome.panic .other",
                    "  | fuel + 1, " + ", ".join(state) + " => do"]
             aux += ["    " + l for l in lc]
-            aux += [f"    if {xc} then", btxt.rstrip("\n"), "    else", f"      pure ({tup})", ""]
+            aux += [f"    if {xc} then", btxt.rstrip("\n"), "    else", f"      pure ({fin})", ""]
             self.aux = getattr(self, "aux", []) + ["\n".join(aux)]
-            out = f"{pad}let {tup} ← {lname} prof {args} {fuel} {' '.join(state)}\n".replace("  ", " ") if False else \
-                f"{pad}let {tup} ← {lname} prof {args + ' ' if args else ''}{fuel} {' '.join(state)}\n"
+            call = f"{lname} prof {args + ' ' if args else ''}{fuel} {' '.join(state)}"
+            if self.loop_returns:
+                v = self.fresh()
+                rest_txt = self.stmts_term(rest, tail, ind + 1, k)
+                return (f"{pad}let {v} ← {call}\n{pad}match {v} with\n{pad}| Sum.inl r => pure r\n"
+                        f"{pad}| Sum.inr {tup} =>\n" + rest_txt)
+            out = f"{pad}let {tup} ← {call}\n"
             return out + self.stmts_term(rest, tail, ind, k)
         if kind == "assign":
             _, op, lhs, rhs = s
@@ -896,6 +929,9 @@ class Emit:
             e = s[1]
             if e[0] == "return":
                 ls, x = self.ex(e[1], self.decl_ret if hasattr(self, "decl_ret") else self.ret)
+                if getattr(self, "in_loop", False):
+                    self.loop_returns = True
+                    return "".join(f"{pad}{l}\n" for l in ls) + f"{pad}pure (Sum.inl ({x}))\n"
                 return "".join(f"{pad}{l}\n" for l in ls) + f"{pad}pure ({self.wrap_ret(x)})\n"
             if e[0] == "if":
                 # statement `if` (no value): may assign variables or return early
@@ -1132,8 +1168,8 @@ class Emit:
 # ----------------------------------------------------------------------------- driver
 GROUP_IMPORTS = {"KPow": ["Fpdec.Gen.Consts"], "KDivRounded": ["Fpdec.Gen.KRound", "Fpdec.Gen.KPow", "Fpdec.Model.Core"],
                  "KDecDiv": ["Fpdec.Gen.KDivRounded"], "KDecMul": ["Fpdec.Gen.KDivRounded", "Fpdec.Model.Decimal"], "KNorm": [],
-                 "KFloat": ["Fpdec.Gen.KNorm", "Fpdec.Gen.Consts", "Fpdec.Model.Core"]}
-LOOP_FUEL.update({("normalize", 1): 256, ("approx_rational", 1): 32})
+                 "KFloat": ["Fpdec.Gen.KNorm", "Fpdec.Gen.Consts", "Fpdec.Model.Core"], "KRem": ["Fpdec.Gen.KPow"]}
+LOOP_FUEL.update({("normalize", 1): 256, ("approx_rational", 1): 32, ("rem", 1): 256})
 KERNELS = [
     # (group, file, fn name, self type for trait methods)
     ("KPow", "fpdec-core/src/powers_of_ten.rs", "ten_pow", None),
@@ -1150,6 +1186,7 @@ KERNELS = [
     ("KDecMul", "src/binops/mul_rounded.rs", "checked_mul_rounded", None),
     ("KNorm", "src/lib.rs", "normalize", None),
     ("KFloat", "src/from_float.rs", "approx_rational", None),
+    ("KRem", "src/binops/rem.rs", "rem", None),
     ("KWide", "fpdec-core/src/lib.rs", "u128_hi", None),
     ("KWide", "fpdec-core/src/lib.rs", "u128_lo", None),
     ("KWide", "fpdec-core/src/lib.rs", "u128_mul_u128", None),
